@@ -32,7 +32,9 @@ EXPR_SETS = [["Muss [1][950]", "Muss [1][950]", "Muss [1][950]"],  # identical e
              ["Muss [4P][950]", "Muss [1][950]", "Soll [1][950]"],  # the first one sits behind a package (a yield BEFORE the set)
              ["Muss [1][950]", "Muss [4P][950] U [951]", "Kann [1][950]"],
              ["Muss [1][932]", "Muss [1][UB1]", "Muss [1][933]"],  # shipped date-time constraints (same code for every element)
-             ["Muss [5P]", "Muss [1][ 950 ]", "Soll [5P] U [951]"]]  # the format constraint only arrives through a package / a spaced key
+             ["Muss [5P]", "Muss [1][ 950 ]", "Soll [5P] U [951]"],  # the format constraint only arrives through a package / a spaced key
+             # date-time inputs (elements may be typed DATETIME) judged by a spelling-sensitive shipped constraint (931) and a custom one
+             ["Muss [1][950]", "Muss [1][931]", "Muss [1][950] U [931]"]]
 
 
 def describe(tier):
@@ -63,7 +65,7 @@ def plan(tier, seed):
         for ei in range(len(EXPR_SETS)):
             for ii, inp in enumerate(INPUT_SETS if n == 2 else INPUT_SETS3):
                 is_date = bool(inp[0]) and inp[0][:2] == "20"
-                if (ei == 3) != is_date:
+                if (ei in (3, 5)) != is_date:
                     continue
                 for ambient in (None, "good"):
                     if ambient and ii % 2:
@@ -183,6 +185,21 @@ def _oracle(item, observed_json):
     builtin = item["exprs"] == 3
     for k, el in enumerate(elems):
         o = obs[[i for i, n in enumerate(order) if n is el][0]]
+        if item["exprs"] == 5:
+            # what each constraint was given is the element's own ENTERED input, in the spelling in which it was entered
+            from datetime import datetime, timedelta
+
+            others = [e["input"] for e in elems if e is not el and e["input"] and e["input"] != el["input"]]
+            zero = datetime.fromisoformat(el["input"]).utcoffset() == timedelta(0)
+            uses950, uses931 = "[950]" in el["expr"], "[931]" in el["expr"]
+            want_ful = (not uses950) and (zero if uses931 else True)
+            msg = o["format_msg"] or ""
+            bad = o["format"] is not want_ful or any(x in msg for x in others) or (uses950 and f"echo:{el['input']!r}" not in msg)
+            if bad:
+                out.append(("foreign-input-seen", {"id": el["id"], "own_input": el["input"], "format": want_ful,
+                                                   "message_quotes": el["input"] if uses950 else None},
+                            {"id": el["id"], "format": o["format"], "format_msg": o["format_msg"]}))
+            continue
         if builtin:
             # the shipped constraints quote their own input in the message: a foreign notation must not show up
             others = [e["input"] for e in elems if e is not el and e["input"] and e["input"] != el["input"]]
